@@ -86,6 +86,7 @@ type implAddr struct {
 	script    []byte
 	scriptPan string // panic inside OutScript
 	reenc     string // re-encoding from the decoded fields
+	str       string // String() of the decoded object itself (may be a cached copy of the input)
 	isSegwit  bool
 	version   int
 	data      []byte
@@ -124,6 +125,7 @@ func runImplAddr(s string) (r implAddr) {
 				r.reenc = "panic: " + fmt.Sprint(p)
 			}
 		}()
+		r.str = a.String()
 		if a.SegwitProg != nil {
 			r.isSegwit = true
 			r.version = a.SegwitProg.Version
@@ -152,9 +154,16 @@ func evalAddr(st *stats, fam string, s string) {
 	switch {
 	case rerr != nil:
 		if im.accepted {
-			st.add(fam, "ref:refuse:"+refaddr.Class(rerr), "impl:accept")
-			st.fail("addr/accepted-invalid/"+refaddr.Class(rerr),
-				fmt.Sprintf("NewAddrFromString(%q) accepts; reference refuses: %v", printable(raw), rerr), "addr", raw, nil)
+			cls := refaddr.Class(rerr)
+			extra := ""
+			// a valid 25-byte Base58Check address followed by further bytes gets its own class
+			if dec, err := refaddr.B58Decode(s); err == nil && len(dec) > 25 && bytes.Equal(refaddr.Sha256d(dec[:21])[:4], dec[21:25]) {
+				cls = "b58-trailing-bytes"
+				extra = fmt.Sprintf(" (the string decodes to %d bytes: a valid 25-byte address followed by %x)", len(dec), dec[25:])
+			}
+			st.add(fam, "ref:refuse:"+cls, "impl:accept")
+			st.fail("addr/accepted-invalid/"+cls,
+				fmt.Sprintf("NewAddrFromString(%q) accepts%s; String() = %q, fields re-encode to %q; reference refuses: %v", printable(raw), extra, printable([]byte(im.str)), printable([]byte(im.reenc)), rerr), "addr", raw, nil)
 			return
 		}
 		st.add(fam, "ref:refuse:"+refaddr.Class(rerr), "impl:refuse")
@@ -194,6 +203,12 @@ func evalAddr(st *stats, fam string, s string) {
 		if im.reenc != want {
 			st.add(fam, "ref:accept:"+cls, "impl:accept,reencode-differs")
 			st.fail("addr/reencode-mismatch/"+cls, fmt.Sprintf("%q decodes, its fields re-encode to %q", printable(raw), im.reenc), "addr", raw, nil)
+			return
+		}
+		// bijectivity: String() of the decoded object is the canonical encoding too
+		if im.str != want {
+			st.add(fam, "ref:accept:"+cls, "impl:accept,String()-not-canonical")
+			st.fail("addr/string-not-canonical/"+cls, fmt.Sprintf("NewAddrFromString(%q).String() = %q, canonical form %q", printable(raw), printable([]byte(im.str)), want), "addr", raw, nil)
 			return
 		}
 		// script -> address through NewAddrFromPkScript (Bitcoin networks only)
@@ -475,18 +490,19 @@ func evalB32Enc(st *stats, fam, hrp string, data []byte, m bool) {
 
 // ---------------------------------------------------------------- mutation families
 
-var extraBytes = []byte{0x00, 0x7f, 0x80, 0xc3, 0xff}
-
+// substAlphabet: every byte value 0..255 (single-byte substitutions and insertions
+// are exhaustive over the byte alphabet, not only over printable characters).
 func substAlphabet() []byte {
-	var a []byte
-	for c := byte(32); c < 127; c++ {
-		a = append(a, c)
+	a := make([]byte, 256)
+	for i := range a {
+		a[i] = byte(i)
 	}
-	return append(a, extraBytes...)
+	return a
 }
 
-// mutants enumerates all single substitutions (95 printable + 5 other bytes),
-// insertions, deletions, single-letter case flips, whole-string case changes and
+// mutants enumerates all single substitutions (all 255 other byte values at every
+// position), insertions (all 256 byte values at every gap), whole-string bit
+// operations (bit 5 cleared / set, bit 7 set on every byte), deletions, single-letter case flips, whole-string case changes and
 // transpositions of two positions of s.
 func mutants(s string, f func(kind, m string)) {
 	alpha := substAlphabet()
@@ -537,6 +553,20 @@ func mutants(s string, f func(kind, m string)) {
 	}
 	f("upper", strings.ToUpper(s))
 	f("lower", strings.ToLower(s))
+	for name, op := range map[string]func(byte) byte{
+		"allbytes-clear-bit5": func(c byte) byte { return c &^ 0x20 },
+		"allbytes-set-bit5":   func(c byte) byte { return c | 0x20 },
+		"allbytes-set-bit7":   func(c byte) byte { return c | 0x80 },
+		"allbytes-clear-bit6": func(c byte) byte { return c &^ 0x40 },
+	} {
+		m := append([]byte{}, b...)
+		for i := range m {
+			m[i] = op(m[i])
+		}
+		if string(m) != s && string(m) != strings.ToUpper(s) && string(m) != strings.ToLower(s) {
+			f(name, string(m))
+		}
+	}
 	for i := 0; i < len(b); i++ {
 		for j := i + 1; j < len(b); j++ {
 			if b[i] != b[j] {
@@ -792,13 +822,40 @@ func main() {
 				evalScript(st, "base58-scripts", refaddr.P2PKHScript(h), tn)
 				evalScript(st, "base58-scripts", refaddr.P2SHScript(h), tn)
 			}
-			// valid checksum around a payload of the wrong length
-			for _, v := range []byte{0, 5, 111, 196} {
+			// valid checksum around a payload of the wrong length: every version byte x every length 0..40
+			for v := 0; v < 256; v++ {
 				for n := 0; n <= 40; n++ {
 					if n == 20 {
 						continue
 					}
-					evalAddr(st, "base58-payload-length", refaddr.B58CheckEncode(append([]byte{v}, pattern(p, n, "pl")...)))
+					evalAddr(st, "base58-payload-length", refaddr.B58CheckEncode(append([]byte{byte(v)}, pattern(p, n, "pl")...)))
+				}
+			}
+			// a VALID 25-byte address (version || hash || checksum) followed by 1..8 further bytes
+			for v := 0; v < 256; v++ {
+				good := append([]byte{byte(v)}, h...)
+				good = append(good, refaddr.Sha256d(good)[:4]...)
+				for n := 1; n <= 8; n++ {
+					for fill := 0; fill < 3; fill++ {
+						x := append([]byte{}, good...)
+						switch fill {
+						case 0:
+							x = append(x, make([]byte, n)...)
+						case 1:
+							x = append(x, bytes.Repeat([]byte{0xff}, n)...)
+						case 2: // the extra bytes end in a checksum of everything before them
+							if n < 4 {
+								continue
+							}
+							x = append(x, pattern(2, n-4, "")...)
+							x = append(x, refaddr.Sha256d(x)[:4]...)
+						}
+						evalAddr(st, "base58-trailing-bytes", refaddr.B58Encode(x))
+					}
+				}
+				// and preceded by extra bytes (valid address at the END of the decoded string)
+				for n := 1; n <= 4; n++ {
+					evalAddr(st, "base58-leading-bytes", refaddr.B58Encode(append(bytes.Repeat([]byte{0x01}, n), good...)))
 				}
 			}
 		})
@@ -1035,6 +1092,19 @@ func main() {
 		for _, v := range []byte{0x80, 0xef, 0xb0} {
 			for n := 28; n <= 40; n++ { // payload = version + n bytes
 				evalWIF(st, "wif-payload-length", refaddr.B58CheckEncode(append([]byte{v}, pattern(4, n, "wl")...)))
+			}
+			// a VALID 33/34-byte payload + checksum followed by 1..8 further bytes
+			for _, compr := range []bool{false, true} {
+				good, _ := refaddr.B58Decode(refaddr.WIFEncode(keyA, compr, v))
+				for n := 1; n <= 8; n++ {
+					for _, fb := range []byte{0x00, 0x01, 0xff} {
+						evalWIF(st, "wif-trailing-bytes", refaddr.B58Encode(append(append([]byte{}, good...), bytes.Repeat([]byte{fb}, n)...)))
+					}
+					if n >= 4 {
+						x := append(append([]byte{}, good...), pattern(2, n-4, "")...)
+						evalWIF(st, "wif-trailing-bytes", refaddr.B58Encode(append(x, refaddr.Sha256d(x)[:4]...)))
+					}
+				}
 			}
 			for suffix := 0; suffix < 256; suffix++ {
 				evalWIF(st, "wif-suffix", refaddr.B58CheckEncode(append(append([]byte{v}, keyA...), byte(suffix))))
